@@ -84,7 +84,11 @@ func (h *H) scenario(i int) {
 			if h.prof == "applyfail" && h.r.Chance(35) {
 				h.actFailNext(h.anyUp())
 			}
-			h.actWrite(p, h.r.Intn(keys), h.nextU, 1+h.r.Intn(shards), pad)
+			if h.r.Chance(60) {
+				h.actCoordWrite(h.r.Intn(keys), h.nextU, 1+h.r.Intn(shards), pad)
+			} else {
+				h.actWrite(p, h.r.Intn(keys), h.nextU, 1+h.r.Intn(shards), pad)
+			}
 			for _, w := range h.wr {
 				if w.res == "ok" {
 					acked = true
